@@ -53,8 +53,10 @@ def cases(draw, tier):
     rules = draw(R.rules_for(names, engine.ops_present(mspec), max_rules=3,
                              cfg_pool=R.STATIC_CFGS, allow_skip=False))
   seed = draw(st.integers(0, 999))
-  return {'model': mspec, 'recipe': {'kind': 'rules', 'rules': rules},
+  case = {'model': mspec, 'recipe': {'kind': 'rules', 'rules': rules},
           'calib_seeds': [seed], 'input_seed': seed}
+  draw(engine.usage_dimensions(case))
+  return case
 
 
 def compare_numeric(case, out, labels, phi_value):
